@@ -20,6 +20,8 @@
 (* Decoding returns the input within the stated deviation (recorded as an  *)
 (* integer number of 2^-20 units).  Inputs whose scaled magnitude is at    *)
 (* least the modulus, and scales <= 0 or >= the modulus, must be refused.  *)
+(* For every degree the embedding must also be multiplicative (products of *)
+(* encodings decode to slot-wise products), which round trips cannot show. *)
 (***************************************************************************)
 EXTENDS Rns
 
@@ -55,7 +57,15 @@ CoefOk(e, j) ==
             IN sr.ok /\ CloseRel(c.neg, c.mag, v.neg, sr.val, IF e.fft THEN 40 ELSE 51)
        [] c.kind = "any" -> TRUE
 
+\* The embedding is multiplicative (any degree): the product polynomial of two encodings, formed by the harness, decodes to the
+\* slot-wise product of the encoded Gaussian-integer vectors; slots in units of 2^-10, tolerance e.tol units
+AbsC(a) == IF a < 0 THEN 0 - a ELSE a
+EmbedMulOk(e) ==
+  /\ Len(e.got) = Len(e.exp) /\ Len(e.exp) = e.n \div 2
+  /\ \A i \in 1..Len(e.exp) : AbsC(e.got[i][1] - e.exp[i][1]) <= e.tol /\ AbsC(e.got[i][2] - e.exp[i][2]) <= e.tol
+
 CkksEventOk(e) ==
+  IF e.ev = "ckks_mul" THEN EmbedMulOk(e) ELSE
   IF e.must_refuse THEN e.refused
   ELSE IF e.may_refuse THEN TRUE                        \* close to the limits: refusing or computing are both allowed, nothing is demanded
   ELSE /\ ~e.refused
